@@ -36,8 +36,8 @@ type NodeCase struct {
 	Start      uint64
 	Size       uint64
 	Signature  hx.Hex // 16 bytes
-	GPT        bool // partition format: GPT (2) or MBR (1)
-	SigGUID    bool // signature type: GUID (2) or 32-bit MBR signature (1); usually equal to GPT
+	GPT        bool   // partition format: GPT (2) or MBR (1)
+	SigGUID    bool   // signature type: GUID (2) or 32-bit MBR signature (1); usually equal to GPT
 	Path       string
 	FileName   hx.Hex
 }
@@ -97,6 +97,19 @@ func genCase(t *rapid.T) Case {
 	if rapid.Bool().Draw(t, "short") {
 		n = rapid.IntRange(0, 5).Draw(t, "norder2")
 	}
+	// now and then a boot order far longer than any machine has: the variable then spans several pages, I/O buffers ...
+	long := gen.Chance(t, "longorder", 1, 25)
+	if long {
+		n = rapid.SampledFrom([]int{511, 512, 513, 1023, 1024, 2045, 2046, 2047, 2048, 2049, 4095, 4096, 4097, 8200, 32766}).Draw(t, "nlong")
+		base := rapid.Uint16().Draw(t, "orderbase")
+		step := uint16(2*rapid.IntRange(0, 40).Draw(t, "orderstep") + 1)
+		for i := 0; i < n; i++ {
+			c.Order = append(c.Order, base+uint16(i)*step)
+			// only a handful of the variables exist: around the start, the end, and the 4096-byte marks of the file
+			c.Existing = append(c.Existing, i < 2 || i >= n-2 || (i+2)%2048 < 3)
+		}
+		n = 0
+	}
 	for i := 0; i < n; i++ {
 		var v uint16
 		switch rapid.IntRange(0, 3).Draw(t, "numkind") {
@@ -116,6 +129,18 @@ func genCase(t *rapid.T) Case {
 		c.Nodes = append(c.Nodes, genNode(t))
 	}
 	c.Optional = gen.SizedBytes(40, 0).Draw(t, "optional")
+	if gen.Chance(t, "bigoption", 1, 25) {
+		// a load option larger than a page: long optional data (a kernel command line, an embedded blob) or description
+		if rapid.Bool().Draw(t, "bigdesc") {
+			rs := []rune(c.Description + "x")
+			for len(rs) < 2100 {
+				rs = append(rs, rs...)
+			}
+			c.Description = string(rs[:rapid.IntRange(2030, 2100).Draw(t, "desclen")])
+		} else {
+			c.Optional = gen.FillBytes(t, rapid.SampledFrom([]int{3900, 4000, 4090, 4096, 4100, 5000, 9000, 20000}).Draw(t, "optlen"))
+		}
+	}
 	c.Legacy = rapid.Bool().Draw(t, "legacy")
 	return c
 }
